@@ -225,6 +225,46 @@ def r134(repo, ctx):
                     ctx.check(ok and tau_ok, 'R13.4', path, q, s, f'temperature of {".".join(obj)} = schedule evaluated at the time stored in the same record',
                               f'temperature of {".".join(obj)} is not the schedule evaluated at the time stored in the same record', construct=U.src(s))
     ctx.floor('R13.4', n, 3)
+    # pairing: on every path on which the time of a record is (re)written, its temperature is rewritten as well
+    npair = 0
+    for path, cls in ((BASE, PBASE), (EULER, MODEL)):
+        for q, f in repo.functions(path):
+            if not q.startswith(cls + '.'):
+                continue
+            def slot(node, name):
+                a = node.ast
+                out = set()
+                if node.kind == 'stmt' and isinstance(a, ast.Assign):
+                    for t in a.targets:
+                        c = U.chain(t)
+                        if c and name in c and 'temperatureParameters' not in c:
+                            i = c.index(name)
+                            if c[i + 1:] in ((), ('[]',)) and i >= 1 and c[:i] in (('Y',), ('self', '_currY'), ('self', 'pData')):
+                                out.add(c[:i])
+                return out
+            if not any(slot(type('N', (), {'ast': s_, 'kind': 'stmt'})(), 'time') for s_ in U.walk_no_nested(f) if isinstance(s_, ast.Assign)):
+                continue
+            g = C.build(f)
+
+            def tr(node, st, label):
+                st = set(st)
+                for o in slot(node, 'time'):
+                    st.add(('time', o))
+                for o in slot(node, 'temperature'):
+                    st.add(('temperature', o))
+                return frozenset(st)
+            at, exits = C.collect(g, frozenset(), tr)
+            bad = []
+            for lab, sts in exits.items():
+                for st in sts:
+                    for kind, o in st:
+                        if kind == 'time' and ('temperature', o) not in st:
+                            bad.append(o)
+            npair += 1
+            ctx.check(not bad, 'R13.4', path, q, f, 'on every path that stores the time of a record, its temperature is stored as well',
+                      f'a path stores the time of {[".".join(b) for b in bad][:1]} but not its temperature: the record keeps the temperature of an earlier step (e.g. after the schedule was changed between solve calls)',
+                      construct=f'{q}: time => temperature')
+    ctx.floor('R13.4/pair', npair, 2)
 
 
 def r135(repo, ctx):
